@@ -38,6 +38,7 @@ def run(chk, crate="rssl_hlsl", P="C01"):
     rule_shape(chk, crate, P)
     if not rule_lit_eval(chk, crate, P):
         rule_lit(chk, crate, P)
+    rule_scope_block_eval(chk, crate, P)
     if crate == "rssl_hlsl":
         rule_intrinsic(chk, P)
     if not rule_swizzle_eval(chk, crate, P):
@@ -847,6 +848,61 @@ def rule_order(chk, crate, P):
 
 REF_LIT = {"Bool": "Bool", "UInt32": "IntUnsigned32", "Int64": "IntSigned64", "UInt64": "IntUnsigned64", "FloatLiteral": "FloatUntyped",
            "Float16": "Float16", "Float32": "Float32", "Float64": "Float64", "Int32": "IntUntyped", "IntLiteral": "IntUntyped"}
+
+
+def rule_scope_block_eval(chk, crate, P):
+    """generate_scope_block read on statement lists with case / default labels (the statement printer is a stand-in that
+    hands back a scripted ast statement per IR statement): a label takes the statement that follows it, stacked labels
+    (`case 1: case 2: x;`) all stay, nothing is dropped or reordered - the flattened sequence of labels and statements
+    that comes out is the one that went in (placeholders aside)."""
+    import interp as I
+    f = chk.facts
+    fn = f.fn("generate_scope_block", crate)
+    if not fn:
+        return
+    st = lambda kind, *a: I.Enum("Statement", None, {"kind": I.Enum("StatementKind", kind, {str(i): v for i, v in enumerate(a)}), "location": I.Opaque("location"), "attributes": []})
+    case = lambda k: ("case %s" % k, lambda: st("CaseLabel", I.Enum("Expression", "Tagged", {"tag": k}), st("Empty")))
+    default = ("default", lambda: st("DefaultLabel", st("Empty")))
+    x = lambda t: ("stmt %s" % t, lambda: st("Expression", I.Enum("Expression", "Tagged", {"tag": t})))
+    brk = ("break", lambda: st("Break"))
+    empty = ("empty", lambda: st("Empty"))
+    lists = {"single-labels": [case(1), x("a"), brk, default, x("b")], "stacked-labels": [case(1), case(2), case(3), x("a"), brk, case(4), x("b")],
+             "default-among-cases": [default, case(9), x("a"), brk], "label-with-empty-statement": [case(1), empty, case(2), x("a")], "label-at-end": [case(1), x("a"), brk, default],
+             "no-labels": [x("a"), x("b"), brk]}
+
+    def flatten(s_):
+        s_ = s_.get() if isinstance(s_, I.Ref) else s_
+        k = s_.fields["kind"]
+        if k.variant == "CaseLabel":
+            return ["case %s" % k.fields["0"].fields.get("tag")] + flatten(k.fields["1"])
+        if k.variant == "DefaultLabel":
+            return ["default"] + flatten(k.fields["0"])
+        if k.variant == "Empty":
+            return []
+        if k.variant == "Expression":
+            return ["stmt %s" % k.fields["0"].fields.get("tag")]
+        return [k.variant.lower()]
+    t = crate.replace("rssl_", "")
+    for lname, spec in lists.items():
+        made = [mk() for _n, mk in spec]
+        it = iter(made)
+        ext = {"generate_statement": lambda a, it=it: I.Enum("Result", "Ok", {"0": next(it)})}
+        key = "%s.stmt/%s/scope-block/%s" % (P, t, lname)
+        try:
+            r = I.Interp(f, max_depth=6, extern=ext).apply(fn, [I.Enum("ScopeBlock", None, {"0": [I.Opaque("ir statement")] * len(spec), "1": I.Opaque("declarations")}), I.Opaque("context")])
+        except I.Unknown as e:
+            if "panicking" in str(e):
+                chk.ob(key, False, "generate_scope_block aborts on %s (%s)" % ([n_ for n_, _m in spec], str(e)[:60]), where(fn))
+            else:
+                chk.unreadable(key, "generate_scope_block on a scripted statement list", str(e)[:100], where(fn))
+            continue
+        want = [n_ for n_, _m in spec if n_ != "empty"]
+        got = None
+        if isinstance(r, I.Enum) and r.variant == "Ok" and isinstance(r.fields.get("0"), list):
+            got = [y for s_ in r.fields["0"] for y in flatten(s_)]
+        chk.ob(key, got == want, "labels and statements in order: %s" % want if got == want else
+               "the block `%s` is exported as `%s`: a label or a statement is lost, repeated or moved (the exported switch selects other code for some values)" % ("; ".join(want), "; ".join(got) if got is not None else r),
+               where(fn), sample={"list": lname})
 
 
 def rule_lit_eval(chk, crate, P):
